@@ -246,13 +246,24 @@ func c04Visit(s *openapi3.Schema, v any, mode int) bool {
 	} else if mode == 2 {
 		opts = append(opts, openapi3.VisitAsResponse())
 	}
-	opts = append(opts, openapi3.MultiErrors())
-	var err error
+	// whether a value satisfies a schema does not depend on how errors are collected: the value counts as
+	// satisfying when both the fail-at-first-error and the collect-every-error mode say so (document
+	// validation uses the collecting mode for examples, the other one for defaults)
+	var err, errMulti error
 	if p := catchPanic(func() { err = s.VisitJSON(v, opts...) }); p != nil {
 		return false
 	}
-	return err == nil
+	if p := catchPanic(func() { errMulti = s.VisitJSON(v, append(opts, openapi3.MultiErrors())...) }); p != nil {
+		return false
+	}
+	if (err == nil) != (errMulti == nil) {
+		c04ModeSplit++
+	}
+	return err == nil && errMulti == nil
 }
+
+// number of (schema, value) pairs of the run on which the two error modes disagreed
+var c04ModeSplit int
 
 func (w *c04Walker) setVisit(attrs map[string]any, pre string, s *openapi3.Schema, v any) {
 	attrs[pre+"none"] = c04Visit(s, v, 0)
@@ -1051,6 +1062,33 @@ func init() {
 			delete(l.obj, k)
 		}
 	})
+	simple("schema-example-breaks-array-length", false, ofKind("Schema"), func(r *Rng, l *c04Loc) {
+		for _, k := range []string{"default", "properties", "required", "pattern", "format", "enum", "allOf", "oneOf", "anyOf", "not", "additionalProperties", "maxLength", "minimum"} {
+			delete(l.obj, k)
+		}
+		l.obj["type"] = "array"
+		l.obj["items"] = Pick(r, []any{jobj(), jobj(), jobj("type", "integer")})
+		switch r.Intn(3) {
+		case 0:
+			l.obj["minItems"] = 2.0
+			l.obj["example"] = []any{1.0}
+		case 1:
+			l.obj["maxItems"] = 1.0
+			l.obj["example"] = []any{1.0, 2.0}
+		default:
+			l.obj["uniqueItems"] = true
+			l.obj["example"] = []any{1.0, 2.0, 1.0}
+		}
+	})
+	simple("server-variable-written-with-blanks", false, ofKind("Server"), func(r *Rng, l *c04Loc) {
+		// the template variable of the URL is " region ", the declared one "region"
+		l.obj["url"] = "https://{ region }.example"
+		l.obj["variables"] = jobj("region", jobj("default", "eu"))
+	})
+	simple("server-variable-named-with-blanks", true, ofKind("Server"), func(r *Rng, l *c04Loc) {
+		l.obj["url"] = "https://{ region }.example"
+		l.obj["variables"] = jobj(" region ", jobj("default", "eu"))
+	})
 	simple("schema-example-readonly-member", true, ofKind("Schema"), func(r *Rng, l *c04Loc) {
 		for _, k := range []string{"default", "required", "items", "pattern", "format", "enum", "allOf", "oneOf", "anyOf", "not", "additionalProperties", "maxLength", "minimum"} {
 			delete(l.obj, k)
@@ -1418,6 +1456,12 @@ func init() {
 		if replay == "" {
 			c04MultiFile(meta)
 			c04DateExamples(meta)
+		}
+		meta.Histogram["example / default visits on which the two error modes disagree"] = c04ModeSplit
+		if c04ModeSplit > 0 {
+			meta.GoViolation = append(meta.GoViolation, map[string]any{"signature": "example-verdict-depends-on-error-mode", "cases": []any{map[string]int{"visits": c04ModeSplit}},
+				"go_observation": fmt.Sprintf("%d (schema, example or default) pairs are accepted in one error mode and rejected in the other", c04ModeSplit),
+				"judgement":      "whether a value satisfies a schema does not depend on how the errors are collected"})
 		}
 		writeMeta(outDir, meta)
 		fmt.Fprintf(os.Stderr, "C04: %d cases (%d loaded)\n", len(cases), len(trees))
